@@ -2,7 +2,7 @@
 # that frees/reallocations refer to regions the implementation really returned), the ORACLE (an interval set of the
 # client's live regions + the property statements, evaluated on the implementation's answers only, independent of the
 # Coq model), the differential run of the extracted model on the same concrete script (T2) and replay.
-import os, re, json, subprocess, shutil, tempfile
+import os, re, json, subprocess, shutil, tempfile, hashlib
 from concurrent.futures import ProcessPoolExecutor
 import vlib
 
@@ -597,62 +597,65 @@ def strip_a(o):
 
 def worker(args):
     """one process: generates scripts against the implementation, applies the oracle, then runs the model on the same
-    concrete lines and diffs"""
+    concrete lines and diffs (in chunks of 40 scripts, so that memory stays flat in the thorough tier)"""
     exe, model, variant, seed, nscripts, nops, focus, corpus = args
     rng = vlib.Rng(seed)
     wd = tempfile.mkdtemp(prefix="fsm-w-", dir="/tmp")
-    res = {"scripts": 0, "ops": 0, "dist": {}, "viol": [], "mism": [], "err": None, "canon": [], "samples": []}
+    res = {"scripts": 0, "ops": 0, "dist": {}, "viol": [], "mism": [], "err": None, "canon": [], "samples": [], "validated": 0}
     try:
-        import time as _t
-        _t0 = _t.time()
         impl = Impl(exe, wd)
-        all_lines, all_outs = [], []
         todo = [("corpus", c) for c in corpus] + [("gen", None)] * nscripts
-        for kind, scripted in todo:
-            r = rng.fork()
-            lines, outs, orc, stop = gen_script(r, impl, nops, focus, scripted)
-            if any(o.startswith("CRASHED") for o in outs):
-                orc.bad(focus, "implementation harness crashed: %s" % [o for o in outs if o.startswith("CRASHED")][0])
-                impl.close()
-                impl = Impl(exe, wd)
-            res["scripts"] += 1
-            res["ops"] += len(lines)
-            for l in lines:
-                k = l.split()[0]
-                if k == "free" and l.endswith("invalid"):
-                    k = "free-invalid"
-                res["dist"][k] = res["dist"].get(k, 0) + 1
-            res["dist"]["cfg bpow=%s" % lines[0].split()[1]] = res["dist"].get("cfg bpow=%s" % lines[0].split()[1], 0) + 1
-            bml = set(m.group(1) for m in (re.search(r" M=\d+:(\d+):", o) for o in outs) if m)
-            if len(bml) > 1:
-                res["dist"]["scripts that grew the bitmap"] = res["dist"].get("scripts that grew the bitmap", 0) + 1
-            res["canon"].append("\n".join(lines))
-            if len(res["samples"]) < 1 and kind == "gen":
-                res["samples"].append({"script_head": lines[:6], "impl_head": [strip_a(o)[:160] for o in outs[:6]], "ops": len(lines)})
-            for prop, msg in orc.v:
-                res["viol"].append({"property": prop, "note": msg, "script": lines[:(stop + 1 if stop is not None else len(lines))],
-                                    "kind": kind})
-            all_lines += lines
-            all_outs += outs
+        while todo:
+            chunk, todo = todo[:40], todo[40:]
+            all_lines, all_outs = [], []
+            for kind, scripted in chunk:
+                r = rng.fork()
+                lines, outs, orc, stop = gen_script(r, impl, nops, focus, scripted)
+                if any(o.startswith("CRASHED") for o in outs):
+                    orc.bad(focus, "implementation harness crashed: %s" % [o for o in outs if o.startswith("CRASHED")][0])
+                    impl.close()
+                    impl = Impl(exe, wd)
+                res["scripts"] += 1
+                res["ops"] += len(lines)
+                for l in lines:
+                    k = l.split()[0]
+                    if k == "free" and l.endswith("invalid"):
+                        k = "free-invalid"
+                    res["dist"][k] = res["dist"].get(k, 0) + 1
+                ck = "cfg bpow=%s" % lines[0].split()[1]
+                res["dist"][ck] = res["dist"].get(ck, 0) + 1
+                bml = set(m.group(1) for m in (re.search(r" M=\d+:(\d+):", o) for o in outs) if m)
+                if len(bml) > 1:
+                    res["dist"]["scripts that grew the bitmap"] = res["dist"].get("scripts that grew the bitmap", 0) + 1
+                res["canon"].append(hashlib.sha256("\n".join(lines).encode()).hexdigest()[:16])
+                if len(res["samples"]) < 1 and kind == "gen":
+                    res["samples"].append({"script_head": lines[:6], "impl_head": [strip_a(o)[:160] for o in outs[:6]], "ops": len(lines)})
+                for prop, msg in orc.v:
+                    if len(res["viol"]) < 40:
+                        res["viol"].append({"property": prop, "note": msg, "kind": kind,
+                                            "script": lines[:(stop + 1 if stop is not None else len(lines))]})
+                all_lines += lines
+                all_outs += outs
+            rc, mout, err = vlib.run_lines(["sh", "-c", 'ulimit -s unlimited 2>/dev/null; exec "$0" "$@"', model, variant],
+                                           "\n".join(all_lines) + "\n", timeout=900)
+            if rc != 0:
+                res["err"] = "model driver exited %d: %s" % (rc, err[-400:])
+            # diff per script (a script ends where the next `open` starts)
+            start, bad_starts = 0, set()
+            for i, l in enumerate(all_lines):
+                if l.startswith("open "):
+                    start = i
+                a = strip_a(all_outs[i])
+                b = mout[i] if i < len(mout) else "<missing>"
+                if a != b:
+                    if start not in bad_starts and len(res["mism"]) < 20:
+                        res["mism"].append({"start": start, "at": i - start, "line": l, "impl": a[:400], "model": b[:400],
+                                            "script": all_lines[start:i + 1]})
+                    bad_starts.add(start)
+                else:
+                    res["validated"] += 1
+            res["nmism"] = res.get("nmism", 0) + len(bad_starts)
         impl.close()
-        import time as _t
-        res["t_gen"] = _t.time() - _t0
-        rc, mout, err = vlib.run_lines(["sh", "-c", 'ulimit -s unlimited 2>/dev/null; exec "$0" "$@"', model, variant],
-                                       "\n".join(all_lines) + "\n", timeout=900)
-        if rc != 0:
-            res["err"] = "model driver exited %d: %s" % (rc, err[-400:])
-        # diff per script (a script ends where the next `open` starts)
-        start = 0
-        for i, l in enumerate(all_lines):
-            if l.startswith("open "):
-                start = i
-            a = strip_a(all_outs[i])
-            b = mout[i] if i < len(mout) else "<missing>"
-            if a != b and not any(m["start"] == start for m in res["mism"]):
-                res["mism"].append({"start": start, "at": i - start, "line": l, "impl": a[:400], "model": b[:400],
-                                    "script": all_lines[start:i + 1]})
-        res["validated"] = len(all_lines) - len(res["mism"])
-        res["t_all"] = _t.time() - _t0
     except Exception as e:  # noqa
         import traceback
         res["err"] = "worker failed: %s" % traceback.format_exc()[-800:]
@@ -704,9 +707,10 @@ def account(run, focus, variant, results):
             run.dist(k, v)
         run.cov["traces_validated_against_impl"] += r.get("validated", 0)
         run.cov["operations"] = run.cov.get("operations", 0) + r["ops"]
+        nm += max(0, r.get("nmism", 0) - len(r["mism"]))
         for m in r["mism"]:
             nm += 1
-            if nm == 1:
+            if not any(x.startswith("T2 correspondence") for x in run.broken):
                 run.broken.append("T2 correspondence (model variant %s): op %d `%s` impl=`%s` model=`%s`" % (
                     variant, m["at"], m["line"], m["impl"][:200], m["model"][:200]))
                 json.dump(m, open(os.path.join(vlib.VERIF, "replays", "%s-t2-mismatch.json" % focus), "w"), indent=1)
